@@ -57,6 +57,29 @@ static void *sorter_thread(void *arg)
 	mtbl_sorter_destroy(&s);
 	return NULL;
 }
+/* a pooled sorter dumped with mtbl_sorter_write into a writer that uses the SAME pool: workers that ran unordered
+ * chunk jobs are reused for the writer's ordered block jobs */
+static void *sorter_to_writer_thread(void *arg)
+{
+	long id = (long) arg; char spill[512]; snprintf(spill, sizeof spill, "%s", dir);
+	struct mtbl_sorter_options *so = mtbl_sorter_options_init();
+	mtbl_sorter_options_set_max_memory(so, 500 + 40 * id);
+	mtbl_sorter_options_set_temp_dir(so, spill);
+	mtbl_sorter_options_set_merge_func(so, merge_cat, NULL);
+	mtbl_sorter_options_set_threadpool(so, pool);
+	pthread_barrier_wait(&bar);
+	struct mtbl_sorter *s = mtbl_sorter_init(so);
+	mtbl_sorter_options_destroy(&so);
+	char k[32], v[64], path[600];
+	for (int i = 0; i < 260; i++) { snprintf(k, sizeof k, "k%03d", (int)((i * 41 + id * 7 + seed) % 113)); snprintf(v, sizeof v, "value-%d-%ld", i, id); mtbl_sorter_add(s, (uint8_t *) k, strlen(k), (uint8_t *) v, strlen(v)); }
+	snprintf(path, sizeof path, "%s/stw%ld.mtbl", dir, id); unlink(path);
+	struct mtbl_writer_options *wo = mtbl_writer_options_init();
+	mtbl_writer_options_set_block_size(wo, 1024); mtbl_writer_options_set_threadpool(wo, pool);
+	struct mtbl_writer *w = mtbl_writer_init(path, wo); mtbl_writer_options_destroy(&wo);
+	if (w != NULL) { mtbl_sorter_write(s, w); mtbl_writer_destroy(&w); }
+	mtbl_sorter_destroy(&s); unlink(path);
+	return NULL;
+}
 /* large chunks through the pool, then a small left-over batch flushed by mtbl_sorter_iter after the
  * pooled chunk jobs had time to finish */
 static void *sorter_leftover_thread(void *arg)
@@ -154,6 +177,7 @@ int main(int argc, char **argv)
 	if (!strcmp(sc, "writers")) { pool = mtbl_threadpool_init(2 + seed % 15); run_threads(writer_thread, 4); mtbl_threadpool_destroy(&pool); }
 	else if (!strcmp(sc, "sorters_leftover")) { pool = mtbl_threadpool_init(1 + seed % 4); run_threads(sorter_leftover_thread, 1 + seed % 3); mtbl_threadpool_destroy(&pool); }
 	else if (!strcmp(sc, "sorters_exact")) { pool = mtbl_threadpool_init(1 + seed % 4); run_threads(sorter_exact_thread, 1 + seed % 3); mtbl_threadpool_destroy(&pool); }
+	else if (!strcmp(sc, "sorter_to_writer")) { pool = mtbl_threadpool_init(1 + seed % 3); run_threads(sorter_to_writer_thread, 1 + seed % 2); mtbl_threadpool_destroy(&pool); }
 	else if (!strcmp(sc, "sorters")) { pool = mtbl_threadpool_init(1 + seed % 6); run_threads(sorter_thread, 4); mtbl_threadpool_destroy(&pool); }
 	else if (!strcmp(sc, "readers")) {
 		char path[512]; snprintf(path, sizeof path, "%s/tr.mtbl", dir); make_table(path, (seed % 2) ? MTBL_COMPRESSION_NONE : MTBL_COMPRESSION_LZ4);
